@@ -12,6 +12,7 @@
 
 mod common;
 mod c02;
+mod binproc;
 mod c02live;
 mod c02h3;
 mod h3cli;
@@ -120,6 +121,9 @@ fn main() {
         "c07h3" => muxh3::run_udp(&mut ctx),
         "c11h3" => muxh3::run_icmp(&mut ctx),
         "c14qt" => c14qt::run(&mut ctx),
+        "c05bin" => binproc::run_c05(&mut ctx),
+        "c13bin" => binproc::run_c13(&mut ctx),
+        "c19bin" => binproc::run_c19(&mut ctx),
         "c14est" => c10::run_establish(&mut ctx),
         "c14live" => c14live::run(&mut ctx),
         "c11" => c11::run(&mut ctx),
